@@ -446,6 +446,23 @@ func (x *Exec) wrapAt(fr *Frame, st *State, site ssa.Instruction, t types.Type, 
 		return term
 	}
 	key := x.siteKey(fr, site)
+	// stable key (across runs): source line text of the site and of the enclosing call sites, plus
+	// the occurrence number in execution order
+	if x.key2Count == nil {
+		x.key2Count = map[string]int{}
+		x.siteKey2 = map[string]string{}
+	}
+	base := x.V.lineText(site.Pos())
+	for f := fr; f != nil && f.callSite != nil; f = f.parent {
+		base += " <- " + x.V.lineText(f.callSite.Pos())
+	}
+	x.key2Count[base]++
+	key2 := fmt.Sprintf("%s #%d", base, x.key2Count[base])
+	x.siteKey2[key] = key2
+	if x.preWrap2[key2] {
+		x.wrapped++
+		return x.define("w", "Int", "("+w+" "+term+")")
+	}
 	if x.textNames && x.preWrap != nil && x.preWrap[x.peekName("range", site.Pos())] {
 		// keep the numbering of later obligations on this line stable
 		x.obCount["range"]++
